@@ -50,7 +50,7 @@ def main(tier: str) -> int:
     chk.lean()
     from thefittest.utils import binary_search_interval, argsort_k, find_pbest_id
     from thefittest.utils.random import (numba_seed, random_sample, randint, random_weighted_sample,
-                                         sattolo_shuffle, uniform)
+                                         sattolo_shuffle, sattolo_shuffle_2d, uniform)
     from thefittest.utils.selections import tournament_selection, proportional_selection, rank_selection
     from thefittest.utils.transformations import minmax_scale
     import thefittest.utils.random as trandom
@@ -168,11 +168,11 @@ def main(tier: str) -> int:
                 draws = [int(x) for x in rs_int.randint(0, n, size=200)]
                 add({"op": "sample_norepl", "draws": draws, "k": t}, ("tour_sample", {"fitness": fit, "t": t, "seed": s}, win))
         elif kind == 1:  # proportional / rank sampling (one index)
-            w = [rng.choice([0, 0, 1, 2, 3]) for _ in range(n)]
+            w = [rng.choice([0, 0, 1, 2, 3]) for _ in range(n)] if s % 3 else [rng.choice([1, 1, 2, 5]) for _ in range(n)]   # every third: all weights positive
             if sum(w) == 0:
                 w[rng.randrange(n)] = 1
             numba_seed(s)
-            fn = proportional_selection if s % 12 == 1 else rank_selection
+            fn = proportional_selection if s % 2 == 1 else rank_selection
             idx = int(fn(np.array(w, dtype=np.float64), np.array(w, dtype=np.float64), np.int64(0), np.int64(1))[0])
             chk.count("weighted")
             if not (0 <= idx < n and w[idx] > 0):
@@ -186,6 +186,11 @@ def main(tier: str) -> int:
                 if all(abs(float(exact) - c) > 1e-9 for c in cum):
                     add({"op": "weighted_index", "w": w, "num": u.numerator, "den": u.denominator},
                         ("weighted", {"w": w, "seed": s}, idx))
+                    want = next(k for k, c in enumerate(cum) if exact <= c)
+                    if idx != want:
+                        chk.fail("fitness/rank-proportional selection does not map the uniform draw to the index whose cumulative-weight interval contains it",
+                                 {"function": fn.__name__ if hasattr(fn, "__name__") else str(fn), "weights": w, "uniform_draw": float(u), "out": idx, "expected": want, "seed": s},
+                                 {"fn": "proportional_selection"})
         elif kind == 2:  # sampling without replacement
             k = rng.randint(1, n)
             numba_seed(s)
@@ -211,6 +216,21 @@ def main(tier: str) -> int:
                 us = rs_u.random_sample(n - 1)
                 js = [int(np.floor(us[m] * i)) for m, i in enumerate(range(n - 1, 0, -1))]
                 add({"op": "sattolo", "l": arr, "js": js}, ("sattolo", {"n": n, "seed": s}, out))
+            # the 2-D variant (rows of an archive): the same cyclic permutation, applied to whole rows
+            ncols = 1 + s % 3
+            rows2 = np.array([[10 * r + c for c in range(ncols)] for r in range(n)], dtype=np.float64 if s % 2 else np.int64)
+            numba_seed(s)
+            out2 = sattolo_shuffle_2d(rows2.copy())
+            perm2 = [int(round(float(r[0]))) // 10 for r in out2]
+            chk.count("sattolo_2d")
+            intact = all([float(v) for v in out2[k]] == [float(v) for v in rows2[perm2[k]]] for k in range(n)) if sorted(perm2) == arr else False
+            if not (out2.shape == rows2.shape and sorted(perm2) == arr and intact and is_single_cycle(perm2)):
+                chk.fail("sattolo_shuffle_2d did not return a cyclic permutation of the rows of its input",
+                         {"n_rows": n, "n_cols": ncols, "seed": s, "rows_out": [[float(v) for v in r] for r in out2][:6]}, {"fn": "sattolo_shuffle_2d"})
+            elif perm2 != out:
+                chk.disagree("sattolo_2d", {"n": n, "seed": s, "rows": perm2, "flat": out})
+            else:
+                chk.agree("sattolo_2d")
         elif kind == 4:  # randint
             low = rng.randint(-5, 5)
             high = low + rng.randint(1, 9)
